@@ -160,12 +160,17 @@ def digitsVal : List Char → Nat → Option Nat
 /-- `strconv.ParseUint(s, 10, 64)` up to the range check -/
 def uintOf (cs : List Char) : Option Nat := if cs = [] then none else digitsVal cs 0
 
-/-- `ValidatepPoolId`: `farm-<n>` (or bare `<n>`), n a non-zero uint64
-(written over `String.toList` so that the kernel can evaluate it on literals) -/
+/-- the number a pool id carries: `farm-<n>` (or bare `<n>`), as `strings.TrimPrefix` +
+`strconv.ParseUint` read it (written over `String.toList` so that the kernel can evaluate it
+on literals) -/
+def poolNum? (id : PoolId) : Option Nat :=
+  match id.toList with
+  | 'f' :: 'a' :: 'r' :: 'm' :: '-' :: rest => uintOf rest
+  | l => uintOf l
+
+/-- `ValidatepPoolId`: the number is a non-zero uint64 -/
 def validPoolId (id : PoolId) : Bool :=
-  match (match id.toList with
-         | 'f' :: 'a' :: 'r' :: 'm' :: '-' :: rest => uintOf rest
-         | l => uintOf l) with
+  match poolNum? id with
   | some n => n ≠ 0 && n < 18446744073709551616
   | none => false
 
